@@ -6216,3 +6216,394 @@ func E11NormaliseFirst(c *core.Ctx, r *core.Report) {
 	r.Count("E11.parameter-swaps", n)
 	r.Floor("E11.parameter-swaps", 2)
 }
+
+// E11SetterCopiesSlice: a Context setter does not keep a caller's slice in the recorded style.
+func E11SetterCopiesSlice(c *core.Ctx, r *core.Report) {
+	r.Rule("E11.setter-copies-slice", "canvas.go: Context.Style is copied by value into every recorded draw and into the states Push saves; a slice inside it is shared by all those copies. A Context method that stores a slice-typed parameter (including a variadic one) into the context's state therefore stores a copy (append([]T{}, p...), slices.Clone, or make + copy), never the parameter itself: otherwise the caller changing its own array afterwards rewrites the dashes of paths that are already recorded")
+	p := c.MustPkg("")
+	info := p.TypesInfo
+	n := 0
+	for _, fd := range core.AllFuncDecls(p) {
+		if fd.Body == nil || core.RecvName(fd) != "Context" {
+			continue
+		}
+		recv := recvObj(info, fd)
+		sliceParams := map[types.Object]bool{}
+		for _, f := range fd.Type.Params.List {
+			for _, nm := range f.Names {
+				if o := info.Defs[nm]; o != nil {
+					if _, ok := o.Type().Underlying().(*types.Slice); ok {
+						sliceParams[o] = true
+					}
+				}
+			}
+		}
+		if len(sliceParams) == 0 {
+			continue
+		}
+		ast.Inspect(fd.Body, func(m ast.Node) bool {
+			as, ok := m.(*ast.AssignStmt)
+			if !ok || len(as.Lhs) != len(as.Rhs) {
+				return true
+			}
+			for i, l := range as.Lhs {
+				root := core.RootIdent(l)
+				if root == nil || core.ObjOf(info, root) != recv {
+					continue
+				}
+				if _, isSlice := info.TypeOf(l).Underlying().(*types.Slice); !isSlice {
+					continue
+				}
+				n++
+				key := fmt.Sprintf("canvas.%s|slice stored into the context state is a copy", core.FuncName(fd))
+				if id, ok := core.Unparen(as.Rhs[i]).(*ast.Ident); ok && sliceParams[core.ObjOf(info, id)] {
+					r.Fail("E11.setter-copies-slice", key, c.Pos(as.Pos()), fmt.Sprintf("`%s` stores the caller's slice `%s` itself: every recorded draw and saved state shares its backing array with the caller", c.Src(as), id.Name))
+				} else {
+					r.OK("E11.setter-copies-slice", key, c.Pos(as.Pos()), "")
+				}
+			}
+			return true
+		})
+	}
+	r.Count("E11.context-slice-stores", n)
+	r.Floor("E11.context-slice-stores", 1)
+}
+
+// E11StrokeBeforeView: the rasterizer strokes in the path's own frame.
+func E11StrokeBeforeView(c *core.Ctx, r *core.Report) {
+	r.Rule("E11.stroke-before-view", "rasterizer.RenderPath: stroke width, caps, joins and dash lengths are defined in the path's own coordinates, so the outline is computed first and the view applied to the outline. No value that reaches the receiver of Dash or Stroke comes from a Transform with the view matrix, unless the branch is guarded by a test that the matrix is a translation or rigid (IsTranslation / IsRigid), for which the two orders agree. `max(|sx|,|sy|) == 1` is not such a test: under Scale(1, 0.5) the squashed path would be stroked at full width")
+	p := c.MustPkg("renderers/rasterizer")
+	info := p.TypesInfo
+	fd := core.MustFuncDecl(p, "Rasterizer.RenderPath")
+	r.Func("rasterizer.Rasterizer.RenderPath")
+	var mObj types.Object
+	for _, f := range fd.Type.Params.List {
+		for _, nm := range f.Names {
+			if o := info.Defs[nm]; o != nil && strings.HasSuffix(o.Type().String(), "canvas.Matrix") {
+				mObj = o
+			}
+		}
+	}
+	n := 0
+	var stack []ast.Node
+	type assign struct {
+		obj     types.Object
+		pos     token.Pos
+		guarded bool
+		src     string
+	}
+	var transformed []assign
+	ast.Inspect(fd.Body, func(m ast.Node) bool {
+		if m == nil {
+			stack = stack[:len(stack)-1]
+			return true
+		}
+		stack = append(stack, m)
+		as, ok := m.(*ast.AssignStmt)
+		if !ok || len(as.Lhs) != len(as.Rhs) {
+			return true
+		}
+		for i, l := range as.Lhs {
+			id, ok := l.(*ast.Ident)
+			if !ok {
+				continue
+			}
+			hasT := false
+			ast.Inspect(as.Rhs[i], func(k ast.Node) bool {
+				if call, ok := k.(*ast.CallExpr); ok {
+					if se, ok := call.Fun.(*ast.SelectorExpr); ok && se.Sel.Name == "Transform" && len(call.Args) == 1 {
+						if aid, ok := core.Unparen(call.Args[0]).(*ast.Ident); ok && core.ObjOf(info, aid) == mObj {
+							hasT = true
+						}
+					}
+				}
+				return true
+			})
+			if !hasT {
+				continue
+			}
+			guarded := false
+			for k := len(stack) - 2; k >= 0; k-- {
+				if is, ok := stack[k].(*ast.IfStmt); ok && is.Body.Pos() <= as.Pos() && as.End() <= is.Body.End() {
+					ast.Inspect(is.Cond, func(q ast.Node) bool {
+						if call, ok := q.(*ast.CallExpr); ok {
+							if se, ok := call.Fun.(*ast.SelectorExpr); ok && (se.Sel.Name == "IsTranslation" || se.Sel.Name == "IsRigid") {
+								if rid, ok := core.Unparen(se.X).(*ast.Ident); ok && core.ObjOf(info, rid) == mObj {
+									guarded = true
+								}
+							}
+						}
+						return true
+					})
+				}
+			}
+			transformed = append(transformed, assign{core.ObjOf(info, id), as.Pos(), guarded, c.Src(as)})
+		}
+		return true
+	})
+	ast.Inspect(fd.Body, func(m ast.Node) bool {
+		call, ok := m.(*ast.CallExpr)
+		if !ok {
+			return true
+		}
+		se, ok := call.Fun.(*ast.SelectorExpr)
+		if !ok || (se.Sel.Name != "Stroke" && se.Sel.Name != "Dash") {
+			return true
+		}
+		rid, ok := core.Unparen(se.X).(*ast.Ident)
+		if !ok {
+			return true
+		}
+		n++
+		key := fmt.Sprintf("rasterizer.Rasterizer.RenderPath|%s call #%d works on the untransformed path", se.Sel.Name, n)
+		bad := ""
+		for _, t := range transformed {
+			if t.obj == core.ObjOf(info, rid) && t.pos < call.Pos() && !t.guarded {
+				bad = t.src
+			}
+		}
+		if bad == "" {
+			r.OK("E11.stroke-before-view", key, c.Pos(call.Pos()), "")
+		} else {
+			r.Fail("E11.stroke-before-view", key, c.Pos(call.Pos()), fmt.Sprintf("`%s` puts a path that was already transformed by the view into the receiver of %s, without a guard that the view is a translation or rigid: width, caps, joins and dash lengths are then applied in view coordinates", bad, se.Sel.Name))
+		}
+		return true
+	})
+	r.Count("E11.rasterizer-stroke-calls", n)
+	r.Floor("E11.rasterizer-stroke-calls", 2)
+}
+
+// E11WordListMatch: the `~=` attribute selector looks at every word of the list.
+func E11WordListMatch(c *core.Ctx, r *core.Report) {
+	r.Rule("E11.word-list-match", "cssAttrSelector.AppliesTo, operator `~` (what a `.class` selector compiles to): the attribute value is a white-space separated list and the selector matches if *any* word equals the wanted one. The case therefore iterates: it ranges over the words (strings.Split/Fields) or searches repeatedly in a loop. A single strings.Index inspects only the first occurrence of the name; if that occurrence is part of a longer word (`class=\"mark-thin mark\"`) the real word further on is never seen and the rule's paint is not applied")
+	p := c.MustPkg("")
+	info := p.TypesInfo
+	fd := core.MustFuncDecl(p, "cssAttrSelector.AppliesTo")
+	r.Func("canvas.cssAttrSelector.AppliesTo")
+	key := "canvas.cssAttrSelector.AppliesTo|case '~' examines every word"
+	var clause *ast.CaseClause
+	ast.Inspect(fd.Body, func(m ast.Node) bool {
+		cc, ok := m.(*ast.CaseClause)
+		if !ok {
+			return true
+		}
+		for _, e := range cc.List {
+			if v, ok := core.ConstInt(info, e); ok && v == '~' {
+				clause = cc
+			}
+		}
+		return true
+	})
+	if clause == nil {
+		r.Fail("E11.word-list-match", key, c.Pos(fd.Pos()), "the case for the `~` operator was not found")
+		return
+	}
+	loops := false
+	for _, st := range clause.Body {
+		ast.Inspect(st, func(k ast.Node) bool {
+			switch k.(type) {
+			case *ast.RangeStmt, *ast.ForStmt:
+				loops = true
+			}
+			return true
+		})
+	}
+	if loops {
+		r.OK("E11.word-list-match", key, c.Pos(clause.Pos()), "")
+	} else {
+		r.Fail("E11.word-list-match", key, c.Pos(clause.Pos()), "the case contains no loop: only one position of the attribute value is examined, so a word that also occurs as part of an earlier, longer word is not found")
+	}
+	r.Count("E11.word-list-cases", 1)
+	r.Floor("E11.word-list-cases", 1)
+}
+
+// cpsMustHit enumerates the paths through stmts (if/else trees, nested blocks, early
+// continue/break/return) and reports whether every path that reaches the end of the list or
+// leaves through continue executes a statement accepted by hit. A return ends the path without an
+// obligation. The second result is the statement after which the first offending path leaves.
+func cpsMustHit(stmts []ast.Stmt, hit func(ast.Stmt) bool) (bool, ast.Node) {
+	var bad ast.Node
+	failed := false
+	var walk func(stmts []ast.Stmt, done bool, last ast.Node, k func(bool, ast.Node))
+	walk = func(stmts []ast.Stmt, done bool, last ast.Node, k func(bool, ast.Node)) {
+		if failed {
+			return
+		}
+		if len(stmts) == 0 {
+			k(done, last)
+			return
+		}
+		st, rest := stmts[0], stmts[1:]
+		next := func(d bool, l ast.Node) { walk(rest, d, l, k) }
+		switch x := st.(type) {
+		case *ast.BranchStmt:
+			if !done && x.Tok == token.CONTINUE {
+				failed, bad = true, x
+			}
+			return
+		case *ast.ReturnStmt:
+			return
+		case *ast.BlockStmt:
+			walk(x.List, done, last, next)
+			return
+		case *ast.IfStmt:
+			walk(x.Body.List, done, x, next)
+			switch e := x.Else.(type) {
+			case nil:
+				next(done, x)
+			case *ast.BlockStmt:
+				walk(e.List, done, x, next)
+			case *ast.IfStmt:
+				walk([]ast.Stmt{e}, done, x, next)
+			}
+			return
+		}
+		walk(rest, done || hit(st), st, k)
+	}
+	walk(stmts, false, nil, func(done bool, last ast.Node) {
+		if !done && !failed {
+			failed, bad = true, last
+		}
+	})
+	return !failed, bad
+}
+
+// runGuardedByCode reports whether every `length++` of the loop sits under a condition with a
+// conjunct `f(key) == g(length)`: an equality between an expression of the loop's key and one of
+// the run length.
+func runGuardedByCode(info *types.Info, rs *ast.RangeStmt, length types.Object) bool {
+	keyID, _ := rs.Key.(*ast.Ident)
+	if keyID == nil {
+		return false
+	}
+	keyObj := core.ObjOf(info, keyID)
+	mentions := func(e ast.Expr, o types.Object) bool {
+		found := false
+		ast.Inspect(e, func(k ast.Node) bool {
+			if id, ok := k.(*ast.Ident); ok && core.ObjOf(info, id) == o {
+				found = true
+			}
+			return true
+		})
+		return found
+	}
+	var conj func(e ast.Expr, out *[]ast.Expr)
+	conj = func(e ast.Expr, out *[]ast.Expr) {
+		if be, ok := core.Unparen(e).(*ast.BinaryExpr); ok && be.Op == token.LAND {
+			conj(be.X, out)
+			conj(be.Y, out)
+			return
+		}
+		*out = append(*out, core.Unparen(e))
+	}
+	all, any := true, false
+	var visit func(n ast.Node, guarded bool)
+	visit = func(n ast.Node, guarded bool) {
+		switch x := n.(type) {
+		case *ast.IfStmt:
+			g := guarded
+			var cs []ast.Expr
+			conj(x.Cond, &cs)
+			for _, e := range cs {
+				if be, ok := e.(*ast.BinaryExpr); ok && be.Op == token.EQL {
+					if mentions(be.X, keyObj) && mentions(be.Y, length) || mentions(be.Y, keyObj) && mentions(be.X, length) {
+						g = true
+					}
+				}
+			}
+			visit(x.Body, g)
+			if x.Else != nil {
+				visit(x.Else, guarded)
+			}
+		case *ast.BlockStmt:
+			for _, st := range x.List {
+				visit(st, guarded)
+			}
+		case *ast.IncDecStmt:
+			if id, ok := x.X.(*ast.Ident); ok && core.ObjOf(info, id) == length {
+				any = true
+				if !guarded {
+					all = false
+				}
+			}
+		}
+	}
+	visit(rs.Body, false)
+	return any && all
+}
+
+// E11RunCoversCodes: the run-length loops of the PDF font writer.
+func E11RunCoversCodes(c *core.Ctx, r *core.Report) {
+	r.Rule("E11.run-covers-codes", "pdfWriter.writeFont groups the ToUnicode map into runs (start code, start character, length). A run stands for the codes start … start+length-1, and the loop visits the codes in order, so a run is sound only while `start+length` is the code being visited: every path through one iteration therefore either extends the run (`length++`) or closes it and starts a new one at the visited code (`length = 1`) — unless the extension itself is guarded by the equality of the visited code and start+length, in which case skipped iterations merely close the run. An iteration that leaves through `continue` without doing either (say, to skip glyphs without a character) lets the code run ahead of the run; the next extension then claims a code that belongs to the skipped glyph, and the real glyph's code is left without a character")
+	p := c.MustPkg("renderers/pdf")
+	info := p.TypesInfo
+	fd := core.MustFuncDecl(p, "pdfWriter.writeFont")
+	r.Func("renderers/pdf.pdfWriter.writeFont")
+	n := 0
+	ast.Inspect(fd.Body, func(m ast.Node) bool {
+		rs, ok := m.(*ast.RangeStmt)
+		if !ok {
+			return true
+		}
+		// run-length variables: integer locals declared outside the loop, with `v++` and `v = 1` inside
+		inc, reset := map[types.Object]bool{}, map[types.Object]bool{}
+		ast.Inspect(rs.Body, func(k ast.Node) bool {
+			switch x := k.(type) {
+			case *ast.IncDecStmt:
+				if id, ok := x.X.(*ast.Ident); ok && x.Tok == token.INC {
+					if o := core.ObjOf(info, id); o != nil && (o.Pos() < rs.Pos() || o.Pos() > rs.End()) {
+						inc[o] = true
+					}
+				}
+			case *ast.AssignStmt:
+				if x.Tok == token.ASSIGN && len(x.Lhs) == 1 && len(x.Rhs) == 1 {
+					if id, ok := x.Lhs[0].(*ast.Ident); ok {
+						if v, ok := core.ConstInt(info, x.Rhs[0]); ok && v == 1 {
+							if o := core.ObjOf(info, id); o != nil && (o.Pos() < rs.Pos() || o.Pos() > rs.End()) {
+								reset[o] = true
+							}
+						}
+					}
+				}
+			}
+			return true
+		})
+		for o := range inc {
+			if !reset[o] {
+				continue
+			}
+			n++
+			key := "renderers/pdf.pdfWriter.writeFont|run length " + o.Name() + " updated on every iteration"
+			ok, bad := cpsMustHit(rs.Body.List, func(st ast.Stmt) bool {
+				switch x := st.(type) {
+				case *ast.IncDecStmt:
+					id, ok := x.X.(*ast.Ident)
+					return ok && core.ObjOf(info, id) == o
+				case *ast.AssignStmt:
+					for _, l := range x.Lhs {
+						if id, ok := l.(*ast.Ident); ok && core.ObjOf(info, id) == o {
+							return true
+						}
+					}
+				}
+				return false
+			})
+			if !ok && runGuardedByCode(info, rs, o) {
+				// iterations may be skipped: the extension itself tests that the visited code is start+length
+				ok = true
+			}
+			if ok {
+				r.OK("E11.run-covers-codes", key, c.Pos(rs.Pos()), "")
+			} else {
+				pos := rs.Pos()
+				if bad != nil {
+					pos = bad.Pos()
+				}
+				r.Fail("E11.run-covers-codes", key, c.Pos(pos), "an iteration can end without extending or restarting the run: the visited code runs ahead of start+"+o.Name()+", so a later extension maps a code of a skipped glyph and leaves the real glyph's code unmapped")
+			}
+		}
+		return true
+	})
+	r.Count("E11.run-length-loops", n)
+	r.Floor("E11.run-length-loops", 1)
+}
